@@ -245,4 +245,27 @@ theorem c09_int_arg_captured (fx : Fix) (m : Machine) (sp : Spec) (m0 : Mem)
 
 example : (⟨3, .hex, 4, 0, 0, []⟩ : Spec).ty = 0 ∧ (⟨3, .hex, 4, 0, 0, []⟩ : Spec).isStr = false := by decide
 
+/-! ### unreadable pointers -/
+
+/-- A non-NULL string pointer whose first byte lies in no mapped readable region `[start, end)` —
+    in particular a pointer equal to the end address of a mapping — is classified as an address
+    (`<0x…>` text) whatever the contents of memory: the writer never dereferences it. -/
+theorem c09_unreadable_never_read (m : Machine) (p : Nat) (strs : List (Nat × List Byte))
+    (hp : p ≠ 0) (hr : m.regions ≠ [])
+    (hout : ∀ r ∈ m.regions, ¬ (r.1 ≤ p ∧ p < r.2)) :
+    strVal { m with strs := strs } p = .bad p := by
+  have hm : mapped { m with strs := strs } p = false := by
+    unfold mapped
+    simp only [Bool.or_eq_false_iff]
+    refine ⟨by simpa using hr, ?_⟩
+    rw [List.any_eq_false]
+    intro r hrm
+    have := hout r hrm
+    simp only [Bool.and_eq_true, decide_eq_true_eq]
+    exact this
+  unfold strVal
+  rw [if_neg hp, if_pos hm]
+
+example : (⟨0x1000, 0x2000⟩ : Nat × Nat).1 ≤ 0x1fff ∧ ¬ ((⟨0x1000, 0x2000⟩ : Nat × Nat).1 ≤ 0x2000 ∧ 0x2000 < (⟨0x1000, 0x2000⟩ : Nat × Nat).2) := by decide
+
 end Uft.C09
